@@ -100,7 +100,7 @@ def phase_jump_bound(pre_cs, new_phase: float, protocol: str):
     ch = pre_cs.obj
     in_eom = pre_cs.in_eom
     J = max(ch.phase_jump_time, 2 * ch.rise_time if in_eom else 0)
-    b = last.tf + J + fall_time(last, pre_cs, in_eom)
+    b = last.tf + J + fall_time(last, pre_cs, slot_in_eom(last, pre_cs))
     return b, d < 1e-9
 
 
@@ -122,7 +122,7 @@ def predict_starts(ctx, pre, name: str, protocol: str, new_phase: float, cpd: bo
             if last is not None and protocol != "no-delay":
                 in_eom = cs.in_eom
                 J = max(ch.phase_jump_time, 2 * ch.rise_time if in_eom else 0)
-                pj_opts = [None, last.tf + J + fall_time(last, cs, in_eom)]
+                pj_opts = [None, last.tf + J + fall_time(last, cs, slot_in_eom(last, cs))]
     for count_dd, mode in product((False, True), ("slot", "current")):
         cb = conflict_bounds(ctx, pre, name, protocol, count_dd, mode)
         conf = max([b for b, _ in cb.values()] or [0])
